@@ -48,6 +48,8 @@ def src(node, maxlen=2000):
 
 
 FUNC_TYPES = (ast.FunctionDef, ast.AsyncFunctionDef, ast.Lambda)
+MAX_SHARED_HELPER_STMTS = 8
+MAX_HELPER_USES = int(os.environ.get("VERIF_HELPER_USES", "3"))    # private helpers with up to this many references are analysed in place
 SCOPE_TYPES = FUNC_TYPES + (ast.ClassDef,)
 
 
@@ -271,6 +273,116 @@ def _names_known_to_rules():
     return _KNOWN_NAMES
 
 
+class _IfCall:
+    """`if self._helper(...):` as an inlining site: the if statement and the synthetic `_r = self._helper(...)` before it"""
+    def __init__(self, ifnode, syn):
+        self.ifnode = ifnode
+        self.syn = syn
+
+
+def _clone_ast(node):
+    """copy of a tree (or list of trees) without the parent / finfo back references"""
+    if isinstance(node, ast.AST):
+        new = node.__class__()
+        for f in node._fields:
+            if hasattr(node, f):
+                setattr(new, f, _clone_ast(getattr(node, f)))
+        for a in node._attributes:
+            if hasattr(node, a):
+                setattr(new, a, getattr(node, a))
+        return new
+    if isinstance(node, list):
+        return [_clone_ast(x) for x in node]
+    return node
+
+
+def _has_return(stmts):
+    return any(isinstance(n, ast.Return) for st in stmts for n in walk_local(st))
+
+
+def _always_returns(block):
+    if not block:
+        return False
+    last = block[-1]
+    if isinstance(last, (ast.Return, ast.Raise)):
+        return True
+    if isinstance(last, ast.If):
+        return _always_returns(last.body) and _always_returns(last.orelse)
+    if isinstance(last, ast.With):
+        return _always_returns(last.body)
+    if isinstance(last, ast.Try) and not last.finalbody:
+        return _always_returns(last.body + last.orelse) and all(_always_returns(h.body) for h in last.handlers)
+    return False
+
+
+def _eliminate_returns(block, ost, at_end=True):
+    """the helper body (a private copy) with every `return v` replaced by what the call statement `ost` does with the value
+    (`target = v` / the bare expression / nothing) and the statements following a guard clause moved into the other branch.
+    None when the shape would need statements to be duplicated (a return inside a loop, two partial branches)."""
+    def rep(ret):
+        v = ret.value
+        if isinstance(ost, ast.Assign):
+            a = ast.Assign(targets=_clone_ast(ost.targets), value=v if v is not None else ast.Constant(value=None), type_comment=None)
+            return [ast.fix_missing_locations(ast.copy_location(a, ret))]
+        if v is None or isinstance(v, (ast.Constant, ast.Name)):
+            return []
+        return [ast.copy_location(ast.Expr(value=v), ret)]
+
+    def filled(lst, like):
+        return lst if lst else [ast.copy_location(ast.Pass(), like)]
+
+    out = []
+    for i, s in enumerate(block):
+        rest = block[i + 1:]
+        if isinstance(s, ast.Return):
+            if not at_end:
+                return None
+            return out + rep(s)
+        if isinstance(s, FUNC_TYPES + (ast.ClassDef,)) or not _has_return([s]):
+            out.append(s)
+            continue
+        if isinstance(s, ast.If):
+            if not rest:
+                a, b = _eliminate_returns(s.body, ost, at_end), _eliminate_returns(s.orelse, ost, at_end)
+            elif not at_end:
+                return None
+            elif _always_returns(s.body) and _always_returns(s.orelse):
+                a, b = _eliminate_returns(s.body, ost), _eliminate_returns(s.orelse, ost)
+            elif _always_returns(s.body) and not _has_return(s.orelse):
+                a, b = _eliminate_returns(s.body, ost), _eliminate_returns(s.orelse + rest, ost)
+            elif _always_returns(s.orelse) and not _has_return(s.body):
+                a, b = _eliminate_returns(s.body + rest, ost), _eliminate_returns(s.orelse, ost)
+            elif len(rest) == 1 and isinstance(rest[0], ast.Return) and (rest[0].value is None or isinstance(rest[0].value, (ast.Constant, ast.Name))):
+                # both branches may fall through to a plain `return <flag>`: that one statement is put at the end of each
+                a, b = _eliminate_returns(s.body + _clone_ast(rest), ost), _eliminate_returns(s.orelse + _clone_ast(rest), ost)
+            else:
+                return None
+            if a is None or b is None:
+                return None
+            s.body, s.orelse = filled(a, s), b
+            return out + [s]
+        if rest or not at_end:
+            return None
+        if isinstance(s, ast.Try):
+            if s.orelse and _has_return(s.body):
+                return None
+            parts = [_eliminate_returns(s.body, ost), _eliminate_returns(s.orelse, ost)] + [_eliminate_returns(h.body, ost) for h in s.handlers]
+            if any(x is None for x in parts) or _has_return(s.finalbody):
+                return None
+            s.body, s.orelse = filled(parts[0], s), parts[1]
+            for h, b in zip(s.handlers, parts[2:]):
+                h.body = filled(b, h)
+            return out + [s]
+        if isinstance(s, ast.With):
+            a = _eliminate_returns(s.body, ost)
+            if a is None:
+                return None
+            s.body = filled(a, s)
+            return out + [s]
+        return None
+    return out
+
+
 class FuncInfo:
     def __init__(self, qualname, node, module, cls, parent):
         self.qualname = qualname
@@ -321,6 +433,7 @@ class Model:
             for n in ast.walk(fi.node):
                 if isinstance(n, ast.Attribute) and n.attr.startswith('_') and not n.attr.endswith('__'):
                     uses[n.attr] = uses.get(n.attr, 0) + 1
+        self._orig_size = {fi.qualname: sum(isinstance(n, ast.stmt) for n in ast.walk(fi.node)) - 1 for fi in self.functions.values()}
         for rnd in range(2):
             changed = False
             for fi in list(self.functions.values()):
@@ -354,15 +467,23 @@ class Model:
                 call = st.value
             elif isinstance(st, (ast.Assign, ast.Return)) and isinstance(st.value, ast.Call):
                 call = st.value
+            elif isinstance(st, ast.If) and (isinstance(st.test, ast.Call) or (
+                    isinstance(st.test, ast.BoolOp) and isinstance(st.test.op, ast.And) and isinstance(st.test.values[-1], ast.Call) and not st.orelse)):
+                # `if self._helper(...):` reads as `_r = self._helper(...)` followed by `if _r:`;
+                # `if a and self._helper(...): B` (no else) as `if a:` + `_r = self._helper(...)` + `if _r: B`
+                call = st.test if isinstance(st.test, ast.Call) else st.test.values[-1]
+                syn = ast.Assign(targets=[ast.Name(id='_r_' + getattr(call.func, 'attr', 'h').lstrip('_'), ctx=ast.Store())], value=call, type_comment=None)
+                ast.fix_missing_locations(ast.copy_location(syn, st))
+                st = _IfCall(st, syn)
             else:
                 continue
             f = call.func
-            if not (isinstance(f, ast.Attribute) and f.attr.startswith('_') and not f.attr.endswith('__') and uses.get(f.attr) == 1):
+            if not (isinstance(f, ast.Attribute) and f.attr.startswith('_') and not f.attr.endswith('__') and 1 <= uses.get(f.attr, 0) <= MAX_HELPER_USES):
                 continue
             if f.attr in known or f.attr.lstrip('_') in known:
                 continue    # a unit the rules address by name is analysed as a unit
             # the statement has to belong to fi itself, not to a nested def
-            owner = st
+            owner = st.ifnode if isinstance(st, _IfCall) else st
             while owner is not None and not isinstance(owner, FUNC_TYPES):
                 owner = getattr(owner, 'parent', None)
             if owner is not fi.node:
@@ -378,12 +499,34 @@ class Model:
                 body = body[1:]
             if not body:
                 continue
+            if uses.get(f.attr, 0) > 1 and self._orig_size.get(h.qualname, 99) > MAX_SHARED_HELPER_STMTS:
+                continue    # a larger shared helper is a unit of its own (rules find it by role)
             rets = [n for n in walk_local(h.node) if isinstance(n, ast.Return)]
             if any(isinstance(n, (ast.Yield, ast.YieldFrom)) for n in walk_local(h.node)):
                 continue
             if len(rets) > 1 or (rets and rets[0] is not body[-1]):
+                # early returns: `return self._helper()` keeps every return as it is; elsewhere the guard clauses are turned
+                # into if/else nesting (`if c: return` + rest  ->  `if c: pass else: rest`) when that is possible without
+                # duplicating statements
+                body = _clone_ast(body)
+                if isinstance(st, _IfCall):
+                    if not _always_returns(body):
+                        continue
+                    body = _eliminate_returns(body, st.syn)
+                    if body is None:
+                        continue
+                elif isinstance(st, ast.Return):
+                    if not _always_returns(body):
+                        body.append(ast.copy_location(ast.Return(value=None), body[-1]))
+                else:
+                    if isinstance(st, ast.Assign) and not _always_returns(body):
+                        continue
+                    body = _eliminate_returns(body, st)
+                    if body is None:
+                        continue
+                res.append((st, call, h, binding, body, True))
                 continue
-            res.append((st, call, h, binding, body))
+            res.append((st, call, h, binding, body, False))
         return res
 
     @staticmethod
@@ -431,7 +574,8 @@ class Model:
                 return [clone(x) for x in node]
             return node
 
-        todo = {id(st): (st, call, h, binding, body) for st, call, h, binding, body in cands}
+        todo = {id(st): ((st.ifnode if isinstance(st, _IfCall) else st), call, h, binding, body, pre, (st.syn if isinstance(st, _IfCall) else None))
+                for st, call, h, binding, body, pre in cands}
         new_root = clone(fi.node)
 
         def rewrite(lst):
@@ -449,17 +593,21 @@ class Model:
                         c.body = rewrite(c.body)
                     out.append(st)
                     continue
-                ost, call, helper, binding, body = orig
+                ifst, call, helper, binding, body, pre, syn = orig
+                ost = syn if syn is not None else ifst
+                emitted = []
                 for prm, arg in binding.items():
                     if isinstance(arg, ast.Name) and arg.id == prm:
                         continue
                     a = ast.Assign(targets=[ast.Name(id=prm, ctx=ast.Store())], value=clone(arg), type_comment=None)
                     ast.copy_location(a, ost)
                     ast.fix_missing_locations(a)
-                    out.append(a)
+                    emitted.append(a)
                 stmts = [clone(x) for x in body]
                 last = stmts[-1]
-                if isinstance(last, ast.Return):
+                if pre:
+                    pass        # returns were dealt with by _eliminate_returns (or are kept: `return self._helper()`)
+                elif isinstance(last, ast.Return):
                     val = last.value if last.value is not None else ast.copy_location(ast.Constant(value=None), last)
                     if isinstance(ost, ast.Assign):
                         rep = ast.Assign(targets=[clone(t) for t in ost.targets], value=val, type_comment=None)
@@ -478,8 +626,25 @@ class Model:
                     rep = ast.Return(value=None)
                     ast.copy_location(rep, ost)
                     stmts.append(rep)
-                out.extend(stmts)
+                emitted.extend(stmts)
                 self.inlined.setdefault(fi.qualname, []).append(helper.qualname)
+                if syn is None:
+                    out.extend(emitted)
+                else:
+                    # the if statement itself, now testing the helper's result
+                    flag = ast.copy_location(ast.Name(id=syn.targets[0].id, ctx=ast.Load()), st.test)
+                    if isinstance(st.test, ast.BoolOp):
+                        conds = st.test.values[:-1]
+                        inner = ast.copy_location(ast.If(test=flag, body=rewrite(st.body), orelse=[]), st)
+                        st.test = conds[0] if len(conds) == 1 else ast.copy_location(ast.BoolOp(op=ast.And(), values=conds), st.test)
+                        st.body = emitted + [inner]
+                        out.append(st)
+                    else:
+                        st.test = flag
+                        st.body = rewrite(st.body)
+                        st.orelse = rewrite(st.orelse)
+                        out.extend(emitted)
+                        out.append(st)
             return out
 
         new_root.body = rewrite(new_root.body)
